@@ -5,7 +5,7 @@
 From Coq Require Import List Arith Bool NArith.
 From FFSM2 Require Import Model.TaskList Model.BitArray Model.BitStream Model.Plan Model.Ancestors Model.Machine
   Proofs.BitArrayProofs Proofs.TaskListProofs Proofs.TaskListRun Proofs.PlanProofs Proofs.MachineFrame Proofs.MachinePlan Proofs.MachineLife Proofs.GuardProofs Proofs.CycleProofs Proofs.PlanStep
-  Proofs.SerialProofs Proofs.LogProofs Proofs.MachineTop Model.Multi Generated.InitFacts Proofs.ConstructProofs Proofs.LifeMonitor Proofs.ActivationRounds Proofs.IndexSafety Proofs.FeatureProofs Model.Script Proofs.Contract Proofs.Histories Proofs.StatusBits.
+  Proofs.SerialProofs Proofs.LogProofs Proofs.MachineTop Model.Multi Generated.InitFacts Proofs.ConstructProofs Proofs.LifeMonitor Proofs.ActivationRounds Proofs.IndexSafety Proofs.FeatureProofs Model.Script Proofs.Contract Proofs.Histories Proofs.StatusBits Proofs.Worlds Model.Cxx Generated.LeafCode Proofs.LeafTactics Proofs.LeafConsts Proofs.LeafCodeTaskList.
 Import ListNotations.
 
 (* every callback of a delivery to w sees stateId() = id_of w (255 for the root), isActive(k) = (k = active) for every
@@ -14,7 +14,7 @@ Theorem C06_view_of_a_delivery :
   forall (P : Type) (cfg : config) (orc : oracle P) (PI : plan_data P -> Prop),
          plan_inv_ok P cfg PI ->
          wf_oracle P cfg orc ->
-         forall (w : who) (m : method) (s : mstate P) (k : ctl P),
+         forall (w : who) (m : Ancestors.method) (s : mstate P) (k : ctl P),
          let
          '(s', k') := deliver P cfg orc w m (s, k) in
           same_ctl_but P k k' /\
@@ -51,7 +51,7 @@ Theorem C06_guards_see_pending_and_current :
          plan_inv_ok P cfg PI ->
          wf_oracle P cfg orc ->
          forall (cur pend : transition P) (s : mstate P) (w : who) (r : recipient) 
-           (m : method) (v : Machine.view P),
+           (m : Ancestors.method) (v : Machine.view P),
          In (EvCb P w r m v) (tr P (fst (cancelled_by_guards P cfg orc cur pend s))) ->
          In (EvCb P w r m v) (tr P s) \/ v_kind P v = KGuard /\ v_cur P v = cur /\ v_pend P v = pend.
 Proof. exact (guards_see_pending). Qed.
@@ -62,8 +62,8 @@ Theorem C06_request_records_caller :
   forall (P : Type) (cfg : config) (orc : oracle P) (PI : plan_data P -> Prop),
          plan_inv_ok P cfg PI ->
          wf_oracle P cfg orc ->
-         forall (w : who) (r : recipient) (m : method) (s : mstate P) (k : ctl P) (acts : list (action P))
-           (d : nat),
+         forall (w : who) (r : recipient) (m : Ancestors.method) (s : mstate P) (k : ctl P)
+           (acts : list (action P)) (d : nat),
          can_change (k_kind P k) = true ->
          orc (tr P s) w r m (mk_view P cfg (id_of w) k (co P s)) = acts ++ [AChange P d] ->
          request P (co P (fst (invoke P cfg orc w r m (s, k)))) =
@@ -76,8 +76,8 @@ Theorem C06_request_with_payload_records_caller :
   forall (P : Type) (cfg : config) (orc : oracle P) (PI : plan_data P -> Prop),
          plan_inv_ok P cfg PI ->
          wf_oracle P cfg orc ->
-         forall (w : who) (r : recipient) (m : method) (s : mstate P) (k : ctl P) (acts : list (action P))
-           (d : nat) (p : P),
+         forall (w : who) (r : recipient) (m : Ancestors.method) (s : mstate P) (k : ctl P)
+           (acts : list (action P)) (d : nat) (p : P),
          can_change (k_kind P k) = true ->
          c_payload cfg = true ->
          orc (tr P s) w r m (mk_view P cfg (id_of w) k (co P s)) = acts ++ [AChangeWith P d p] ->
@@ -94,7 +94,8 @@ Theorem C06_every_view_of_every_history :
          wf_cfg cfg ->
          wf_oracle P cfg orc ->
          forall (lg : bool) (ops : list (api_op P)),
-         ops_ok P cfg orc (construct P cfg orc lg) ops -> Forall (view_ok P cfg) (tr P (run P cfg orc lg ops)).
+         ops_ok P cfg orc (construct P cfg orc lg) ops ->
+         Forall (view_ok P cfg) (tr P (Machine.run P cfg orc lg ops)).
 Proof. exact (every_view_of_every_history). Qed.
 Print Assumptions C06_every_view_of_every_history.
 
